@@ -23,6 +23,19 @@ BUILT = {
    text="Seeded search over trees with every entry type in every update situation x option subsets x arrangements with -n; full destination snapshot compared before/after and during the run; the sender's wire stream is decoded and must contain no file data.",
    note="A4 has no wire tap. Trusted: fstree snapshots, refproto stream parser.",
    tech="deterministic simulation: snapshot invariant + wire-history monitor"),
+ "C11": dict(cat="exploration", ref="DESIGN.md §6 C11",
+   text="Seeded search over permission values, mtimes across the int32 range, symlink targets, devices, foreign ids and every subset of -p -t -l -D -o -g in both directions, executed in-process at two privilege levels (root workers and uid-65534 workers); lstat oracle on exactly the promised fields; name-based id mapping checked with the reference sender.",
+   note="Input/configuration-quantified: no schedule or fault decides this property; the simulator is the execution vehicle. Directory mtimes and modes of new files without -p are unconstrained.",
+   tech="deterministic simulation as vehicle; lstat oracle against the source tree; reference sender for id lists"),
+ "C12": dict(cat="exploration", ref="DESIGN.md §6 C12",
+   text="The complete update decision table (destination state x mtime relation x content relation) is laid out in every run for one of the 8 option combinations of -t/-c/-I; the oracle is the set of indices the real generator requests from the reference sender. Every fourth run checks repeat-sync idempotence and change pick-up between real sender and real receiver by decoding both wire directions.",
+   note="Trusted: refproto sender/parsers, model.NeedsTransfer (written from the property statement).",
+   tech="deterministic simulation with a reference sender; exhaustive decision table per option combination"),
+ "C15": dict(cat="exploration", ref="DESIGN.md §6 C15",
+   text="An independent protocol-27 implementation (validated against tridge rsync 3.2.7) strictly decodes handshake, file list, id lists and I/O-error word emitted by the real sender in daemon, command and client roles and requests files by its own index; it encodes lists with every legal compression/length form for the real receiver, whose list-only output must reproduce them.",
+   note="Trusted base: verif/sim/refproto. Encode mode observes the receiver via its listing output.",
+   tech="deterministic simulation with an independent protocol implementation as differential oracle"),
+
  "C13": dict(cat="exploration", ref="DESIGN.md §6 C13",
    text="Seeded search over trees and lists of 0-4 plain-name rules (exclude/include/-f) in pull, push and local arrangements; destination entry set must equal the first-match-wins model; wildcard rules must give an error or rsync's selection.",
    note="Input/configuration-quantified: the simulator is the execution vehicle (in-process two-party sessions); schedule varies per run but does not decide the property.",
